@@ -32,7 +32,9 @@ Record blist_wf (c : vcfg) (l : blist) : Prop := mkBlistWf {
   bw_g : Forall (fun b => meta_g (bk_meta b) = bl_gran l) (bl_blocks l);
   (* the list's granularity is the device's bufferImageGranularity (Vam.eff_granularity), or 1 for a pool
      created with IgnoreBufferImageGranularity *)
-  bw_gran_src : bl_gran l = 1 \/ bl_gran l = (if c_gran c <? 1 then 1 else c_gran c)
+  bw_gran_src : bl_gran l = 1 \/ bl_gran l = (if c_gran c <? 1 then 1 else c_gran c);
+  (* the list's minimum alignment covers the non-coherent atom size of its memory type (Vam.type_min_alignment) *)
+  bw_minalign : (if non_coherent c (bl_type l) then (if c_atom c <? 1 then 1 else c_atom c) else 1) <= bl_minalign l
 }.
 
 (* slot s holds a, allocated *)
@@ -96,7 +98,9 @@ Record VamInvU (c : vcfg) (v : vam) (unreg dang : list Z) : Prop := mkVamInv {
   vi_next_nonneg : 0 <= m_next (v_m v);
   vi_dev_pos : Forall (fun d => 0 < dm_size d) (m_mems (v_m v));
   (* the alignment recorded in a block allocation is a power of two *)
-  vi_align : forall s a, slot_is v s a -> a_kind a = 1 -> Bits.pow2 (a_align a)
+  vi_align : forall s a, slot_is v s a -> a_kind a = 1 -> Bits.pow2 (a_align a);
+  (* ... and at least the minimum alignment of its block list *)
+  vi_minalign : forall s a l, slot_is v s a -> ~ In s dang -> a_kind a = 1 -> get_blist v (a_lref a) = Some l -> bl_minalign l <= a_align a
 }.
 
 Definition VamInv (c : vcfg) (v : vam) : Prop := VamInvU c v [] [].
@@ -383,10 +387,10 @@ Proof. split; intros b Hb; exists b; unfold block_same; auto 6. Qed.
 
 Lemma VamInvU_set_equiv c v U X lr l0 l' :
   VamInvU c v U X -> get_blist v lr = Some l0 ->
-  blist_wf c l' -> bl_type l' = bl_type l0 -> blocks_equiv (bl_blocks l0) (bl_blocks l') ->
+  blist_wf c l' -> bl_type l' = bl_type l0 -> bl_minalign l' = bl_minalign l0 -> blocks_equiv (bl_blocks l0) (bl_blocks l') ->
   VamInvU c (set_blist v lr l') U X.
 Proof.
-  intros HI H0 Hwf Hty (Hfw & Hbw).
+  intros HI H0 Hwf Hty Hma (Hfw & Hbw).
   assert (Hcases := get_set_blist_cases v lr l0 l').
   destruct HI. constructor.
   - rewrite set_blist_lists_len. auto.
@@ -455,6 +459,8 @@ Proof.
   - rewrite set_blist_m. auto.
   - rewrite set_blist_m. auto.
   - intros s a Hs Hk. apply (proj1 (slot_is_set_blist _ _ _ _ _)) in Hs. eauto.
+  - intros s a l1 Hs HX Hk H. apply (proj1 (slot_is_set_blist _ _ _ _ _)) in Hs.
+    destruct (Hcases _ _ H0 H) as [(E & ->)|(Hne & Hg)]; [rewrite Hma; apply (vi_minalign0 s a l0 Hs HX Hk); rewrite E; exact H0|eauto].
 Qed.
 
 (* all fields of the invariant under fixed names *)
@@ -470,4 +476,4 @@ Ltac inv_fields HI :=
   pose proof (vi_dedlists _ _ _ _ HI) as I_dd; pose proof (vi_dedlists_nodup _ _ _ _ HI) as I_dnd;
   pose proof (vi_unreg _ _ _ _ HI) as I_ur; pose proof (vi_dang _ _ _ _ HI) as I_dg;
   pose proof (vi_dang_tags _ _ _ _ HI) as I_dt2; pose proof (vi_next_nonneg _ _ _ _ HI) as I_nn;
-  pose proof (vi_dev_pos _ _ _ _ HI) as I_dp; pose proof (vi_align _ _ _ _ HI) as I_al.
+  pose proof (vi_dev_pos _ _ _ _ HI) as I_dp; pose proof (vi_align _ _ _ _ HI) as I_al; pose proof (vi_minalign _ _ _ _ HI) as I_ma.
